@@ -16,7 +16,7 @@ From MZ.spec Require Import DeflateSpec.
 From MZ.model Require Import DeflateCore.
 From MZ.lib Require Import Arr.
 From MZ.model Require InflateStream.
-From MZ.proofs Require Import Protocol StoredSpec StoredDeflate InflateStoredStream StoredWrappersEndToEnd StoredDeflateTotal.
+From MZ.proofs Require Import Protocol StoredSpec StoredDeflate InflateStoredStream StoredWrappersEndToEnd StoredDeflateTotal StoredDeflateReturns.
 Import ListNotations.
 Local Open Scope N_scope.
 
@@ -91,3 +91,20 @@ Theorem C14_level0_every_deflate_schedule_never_panics_partial :
   Forall (fun it => legal_mz_flush (snd it)) sched ->
   match ddrive (comp_new flags wb) data sched [] 0 with Panic _ => False | _ => True end.
 Proof. exact level0_every_deflate_schedule_never_panics. Qed.
+
+(* ... and every call sequence at level 0 returns: the loop inside deflate() takes at most two turns (a turn that goes
+   on was a turn that only drained pending output, and leaves nothing pending), the engine below it terminates, so
+   for inputs under 2^40 - 259 bytes the caller's loop over the model returns a value: with the theorem above, the
+   level-0 statements of C14 are total *)
+Theorem C14_level0_every_deflate_schedule_returns_partial :
+  forall (data : list N) (flags wb : N) (sched : list (N * N * N)),
+  hasf flags FLAG_RAW = true -> wb <= 15 ->
+  Forall (fun it => legal_mz_flush (snd it)) sched ->
+  N.of_nat (length data) + 259 < 2 ^ 40 ->
+  exists result, ddrive (comp_new flags wb) data sched [] 0 = Ret result.
+Proof. exact level0_every_deflate_schedule_returns. Qed.
+
+Example C14_returns_on_a_schedule :
+  ddrive (comp_new 528384 15) (map (fun i => N.of_nat i mod 251) (seq 0 300)) [(100, 7, 0); (100, 50, 2); (300, 1000, 4)] [] 0
+  <> Ret None.
+Proof. vm_compute. discriminate. Qed.
